@@ -24,7 +24,7 @@ PROP = "C09"
 
 
 def judge(wd, cases, nshards=14, tag="st"):
-    nshards = max(1, min(nshards, len(cases) // 300 + 1))
+    nshards = max(1, min(nshards, len(cases) // 300 + 1), len(cases) // 1500 + 1)     # at most 1500 cases per TLC run
     bounds = [(len(cases) * k // nshards, len(cases) * (k + 1) // nshards) for k in range(nshards)]
 
     def job(k):
